@@ -1,9 +1,18 @@
 """C19 - operator resolution picks the unique most specific match, independently of registration order.
 
-The monitor decides the property on implementation traces alone.  It never computes a rank: the
-"specificity" of a candidate is whatever rank the implementation itself reports for it (the wiring
-observer's WiringResolutionEvent of the candidate resolved on its own), so nothing here depends on
-LARGE_RANK / SCALAR_VAR_RANK / the decay rule."""
+The monitor decides the property on implementation traces alone, with two independent readings of "most
+specific":
+ * the implementation's own ranks (the wiring observer's WiringResolutionEvent of every candidate resolved on
+   its own): the outcome must be the unique strict minimum of those / an ambiguity error on a shared minimum,
+   the same in every registration order, with sound bindings and output = substitution;
+ * the DOCUMENTED rank ([C19-docrank]): doc_rank() below re-computes, from the signature text alone, the rank
+   that docs/source/developer_guide/operators.rst ("Ranking (specificity)") prescribes - structural cost plus,
+   per variable, the minimum over its occurrences, with the documented budgets 10000 / 100 / 1 halved at each
+   step down.  Among the matching candidates the selected one must have the strictly smallest documented rank;
+   a shared smallest documented rank must give the ambiguity error.  It shares no code or data structure with
+   the Lean model or with operator_dispatch.h, so a fault in the rank computation itself (weights, decay,
+   de-duplication) yields a failing input instead of a mere model/implementation disagreement.
+The rank-free instantiation order ([C19-spec], known finding C19-a) is a third reading, reported separately."""
 import os, re
 from vlib import Case, Stream, BUILD, model_cmd
 
@@ -26,6 +35,8 @@ THEOREMS = [
     "HgVerif.Dispatch.inst_subst_deref",
     "HgVerif.Dispatch.inst_subst_exact",
     "HgVerif.Dispatch.output_is_substitution",
+    "HgVerif.Dispatch.addVar_min",
+    "HgVerif.Dispatch.rank_repeated_var_most_specific",
     "HgVerif.Dispatch.rank_ground_instance_le",
     "HgVerif.Dispatch.rank_ground_instance_strict",
     "HgVerif.Dispatch.rank_structure_instance_bound",
@@ -37,8 +48,13 @@ CXX_TARGETS = ["hgv_dispatch"]
 RULE = ("synthetic overload families (1-6 overloads, arity 1-3) obtained by generalising a concrete argument tuple "
         "(concrete leaf, structural copy, scalar / whole-TS / size / schema variables from a small shared pool so that "
         "variables repeat across positions, constraints, REF and SIGNAL parameters, scalar parameters with coercion, "
-        "kwargs collectors), often together with the concrete specialisation of one of them, plus decoys and 11 hand-written "
-        "rank-critical templates (decay, de-dup, ties, coercion, REF); <= 5 argument tuples per family (the seed tuple and REF-wrapped / mutated "
+        "kwargs collectors), often together with the concrete specialisation of one of them, plus decoys and 14 hand-written "
+        "rank-critical templates (decay, de-dup, ties, coercion, REF, one variable at several nesting depths); 150 (thorough: "
+        "3000) directed families in which ONE variable is repeated at >= 2 different documented budgets (bare ~T / REF[~T] "
+        "10000, inside TSL / TSD / TSB 5000, two levels down 2500, TS / TSS / TSD-key payload 100, constrained payload 50, "
+        "scalar parameter 1) competing with 2-4 candidates over independent variables / structure, at least one of them with "
+        "a documented rank between the repeated candidate's per-variable-minimum rank and its per-variable-maximum rank, "
+        "registered all together in both directions and pairwise in both orders; <= 5 argument tuples per family (the seed tuple and REF-wrapped / mutated "
         "variants); each family registered under 3-6 registration orders. A case is non-trivial when some call has "
         ">= 2 matching candidates (a critical pair: the rank decides) ; distinct by sha1 of the case text")
 TRUSTED = [
@@ -46,6 +62,11 @@ TRUSTED = [
     "sort and structural equality of schema terms",
     "tools/props/c19.py re-implements pattern matching in Python for the monitor (a third, independent reading of "
     "type_pattern.cpp)",
+    "tools/props/c19.py doc_rank: the documented rank formula (docs/source/developer_guide/operators.rst l.327-395 and "
+    "l.753) transcribed by hand; TSB[~S] is read as '1 + var_rank/2' by analogy with the documented scalar bundle with "
+    "a schema variable; undocumented call-dependent adjustments (numeric coercion into a concrete scalar parameter, the "
+    "pack pattern of an annotated **kwargs collector) are bracketed, and [C19-docrank] only demands what holds for "
+    "every value inside the bracket",
 ]
 ASSUMPTIONS = [
     "outside the model (not generated, not covered by the theorems): requires_ predicates and default resolvers, "
@@ -557,6 +578,127 @@ def show_params(params):
 
 
 # ------------------------------------------------------------------------------------------------
+# the DOCUMENTED rank: an oracle for "most specific" that uses neither the Lean model's data structures nor
+# anything the implementation reports.  Source: /repo/docs/source/developer_guide/operators.rst, section
+# "Ranking (specificity)" (l.327-395):
+#
+#   l.330  Lower rank = more specific = preferred.
+#   l.337  rank(Concrete scalar leaf) = 0            l.338  rank(Concrete TS | Signal) = 0
+#   l.339  rank(TS(p)) = 1 + rank(p)                 l.340  rank(TSS(p)) = 1 + rank(p)
+#   l.341  rank(TSL(p, N)) = 1 + rank(p)             l.342  rank(TSD(k, v)) = 1 + rank(k) + rank(v)
+#   l.343  rank(TSW(p, period, min)) = 1 + rank(p)   l.344  rank(TSB(fields...)) = 1 + sum rank(field)
+#   l.345  rank(REF(s)) = rank(s)                    l.346  rank(Var) = var_rank  (its CURRENT var_rank)
+#   l.348  candidate rank = structural rank + per-variable min(rank)
+#   l.355-357  var_rank starts at 10000 (a top-level Input parameter), 100 (the scalar payload of a TS / TSS / TSW /
+#          TSD key), 1 (a standalone Scalar parameter)
+#   l.359  at each step down, var_rank -> max(1, var_rank / 2)
+#   l.359-361  a variable carrying constraints pays the halved rate
+#   l.372  rank(bundle with a schema variable) = 1 + var_rank/2     (read here for TSB[~S] as well)
+#   l.391-395  repeated generic variables are de-duplicated by name using their MINIMUM contribution
+#   l.753  a kwargs collector costs one rank point
+# and "Select" (l.316-318): the unique lowest-rank survivor wins, a tie at the lowest rank is an ambiguity error.
+#
+# Not documented (so this oracle only brackets them): what an ANNOTATED **kwargs pack adds on top of the one
+# point of a collector, and what a numeric coercion into a concrete scalar parameter costs.  A size variable has
+# no term in the documented formula.
+# ------------------------------------------------------------------------------------------------
+DOC_BUDGET_INPUT = 10000          # l.355
+DOC_BUDGET_PAYLOAD = 100          # l.356
+DOC_BUDGET_SCALAR_PARAM = 1       # l.357
+DOC_KWARGS_POINT = 1              # l.753
+INF = float("inf")
+
+
+def doc_step_down(v):
+    return max(1, v // 2)         # l.359
+
+
+def _doc_scalar(p, budget, occ):
+    """structural points of a scalar pattern; every variable occurrence is appended to occ as (name, cost)"""
+    if p[0] == "svar":
+        occ.append((("scalar", p[1]), doc_step_down(budget) if p[2] else budget))
+    return 0
+
+
+def _doc_ts(p, budget, occ):
+    """structural points of a time-series pattern read at the given variable budget"""
+    k = p[0]
+    if k == "var":
+        occ.append((("ts", p[1]), doc_step_down(budget) if p[2] else budget))
+        return 0
+    if k in ("conc", "SIGNAL"):
+        return 0
+    if k in ("TS", "TSS", "TSW"):
+        return 1 + _doc_scalar(p[1], DOC_BUDGET_PAYLOAD, occ)
+    if k == "TSL":
+        return 1 + _doc_ts(p[1], doc_step_down(budget), occ)
+    if k == "TSD":
+        return 1 + _doc_scalar(p[1], DOC_BUDGET_PAYLOAD, occ) + _doc_ts(p[2], doc_step_down(budget), occ)
+    if k == "TSB":
+        inner = doc_step_down(budget)
+        return 1 + sum(_doc_ts(q, inner, occ) for _, q in p[1])
+    if k == "TSBvar":
+        occ.append((("ts", p[1]), doc_step_down(budget)))
+        return 1
+    if k == "REF":
+        return _doc_ts(p[1], budget, occ)
+    raise Bad(str(p))
+
+
+def doc_occurrences(params):
+    """(structural points, {variable: [cost of each occurrence, in signature order]})"""
+    occ, structural = [], 0
+    for pk, p in params:
+        if pk == "ts":
+            structural += _doc_ts(p, DOC_BUDGET_INPUT, occ)
+        else:
+            structural += _doc_scalar(p, DOC_BUDGET_SCALAR_PARAM, occ)
+    by_var = {}
+    for v, c in occ:
+        by_var.setdefault(v, []).append(c)
+    return structural, by_var
+
+
+def doc_rank(params, combine=min):
+    """the documented rank of a signature.  combine=max is NOT the contract: the generator uses it to find out
+    which competitors sit in the gap a wrong de-duplication would open"""
+    structural, by_var = doc_occurrences(params)
+    return structural + sum(combine(cs) for cs in by_var.values())
+
+
+def doc_rank_text(params):
+    structural, by_var = doc_occurrences(params)
+    parts = ["structural %d" % structural]
+    for (kind, n), cs in sorted(by_var.items()):
+        parts.append("~%s %s" % (n, cs[0] if len(cs) == 1 else "min(%s)" % ",".join(map(str, cs))))
+    return "%d = %s" % (doc_rank(params), " + ".join(parts))
+
+
+def doc_name_clash(params):
+    """one name used both for a time-series and for a scalar variable: 'de-duplicated by name' can be read two ways"""
+    _, by_var = doc_occurrences(params)
+    names = [n for _, n in by_var]
+    return len(names) != len(set(names))
+
+
+def doc_call_rank(ov, args):
+    """[lo, hi] bracket of the documented rank of a matching candidate in one call"""
+    params, _out, kw = ov
+    lo = hi = doc_rank(params)
+    if kw is not None:
+        lo += DOC_KWARGS_POINT
+        hi = hi + DOC_KWARGS_POINT if kw == "*" else INF
+    coerced = sum(1 for (pk, p), (ak, a) in zip(params, args)
+                  if pk == "sc" and ak == "sc" and p[0] == "sconc" and p[1] != a)
+    return lo, hi + coerced
+
+
+def repeated_at_different_depths(params):
+    _, by_var = doc_occurrences(params)
+    return any(len(set(cs)) > 1 for cs in by_var.values())
+
+
+# ------------------------------------------------------------------------------------------------
 # generator
 # ------------------------------------------------------------------------------------------------
 FIELDS = ["a", "b", "c"]
@@ -715,6 +857,16 @@ TEMPLATES = [
      ["ts:TS[int]", "ts:REF[TS[str]]"]),
     (["ts:REF[~T] -> ~T", "ts:~T -> ~T", "ts:REF[TS[~s]] -> TS[~s]", "ts:=REF[TS[int]] -> =TS[int]", "ts:=TS[int] -> =TS[int]"],
      ["ts:TS[int]", "ts:REF[TS[int]]", "ts:REF[REF[TS[int]]]", "ts:REF[TS[str]]"]),
+    # one variable at several nesting depths against candidates whose rank lies between its smallest and largest cost
+    (["ts:~T ts:TSL[~T,~N] -> TS[bool]", "ts:TS[~s] ts:TSL[~U,~N] -> TSL[~U,~N]", "ts:~T ts:TSL[~U,~N] -> ~U",
+      "ts:TS[~s] ts:TSL[TS[~s],~N] -> TS[~s]", "ts:~T ts:TSL[TS[~s],2] -> ~T"],
+     ["ts:TS[int] ts:TSL[TS[int],2]", "ts:TS[int] ts:TSL[TS[str],2]", "ts:REF[TS[int]] ts:TSL[TS[int],3]"]),
+    (["ts:TSD[~k,~T] ts:~T -> ~T", "ts:TSD[~k,~T] ts:TS[~s] -> TS[~s]", "ts:TSD[~k,~U] ts:~T -> ~U",
+      "ts:TSD[str,TS[~s]] ts:~T -> ~T", "ts:TSB[a:~T,b:TSL[~T,~N]] ts:~T -> ~T"],
+     ["ts:TSD[str,TS[int]] ts:TS[int]", "ts:TSD[str,TS[int]] ts:TS[str]", "ts:TSB[a:TS[int],b:TSL[TS[int],2]] ts:TS[int]"]),
+    (["ts:TS[~s] sc:~s -> TS[~s]", "ts:TS[~s<int|float>] sc:int -> TS[~s]", "ts:TS[~s<int|float>] sc:~k -> TS[~k]",
+      "ts:TS[~s<int|float>] sc:~s<int|float> -> TS[~s]", "ts:TSD[~s,TS[~s]] sc:~s -> TS[~s]"],
+     ["ts:TS[int] sc:int", "ts:TS[float] sc:float", "ts:TS[str] sc:str", "ts:TSD[int,TS[int]] sc:int"]),
 ]
 
 
@@ -909,9 +1061,150 @@ def gen_spec_case(rng, idx):
     return Case(lines)
 
 
+# ---- families with ONE variable repeated at DIFFERENT nesting depths (the per-variable minimum decides) ----------
+# a wrap places the repeated time-series variable at one documented budget: (name, budget, pattern builder, arg builder)
+_DEPTH_WRAPS = [
+    ("bare", 10000, lambda v, rng: v, lambda c: c),
+    ("ref", 10000, lambda v, rng: ("REF", v), lambda c: c),
+    ("tsl", 5000, lambda v, rng: ("TSL", v, rng.choice([("szvar", "N", ()), ("fixed", 2), ("fixed", 0)])), lambda c: ("TSL", c, 2)),
+    ("tsd", 5000, lambda v, rng: ("TSD", rng.choice([("svar", "k", ()), ("sconc", "str")]), v), lambda c: ("TSD", "str", c)),
+    ("tsb", 5000, lambda v, rng: ("TSB", (("a", v), ("b", ("TS", ("sconc", "int"))))), lambda c: ("TSB", (("a", c), ("b", ("TS", "int"))))),
+    ("tsl-tsl", 2500, lambda v, rng: ("TSL", ("TSL", v, ("szvar", "N", ())), ("szvar", "M", ())), lambda c: ("TSL", ("TSL", c, 2), 3)),
+    ("tsd-tsl", 2500, lambda v, rng: ("TSD", ("sconc", "str"), ("TSL", v, ("fixed", 0))), lambda c: ("TSD", "str", ("TSL", c, 2))),
+]
+# occurrences of the repeated scalar variable: (name, budget, kind, pattern builder(var, constrained var), arg builder(scalar))
+_SCALAR_SITES = [
+    ("payload", 100, "ts", lambda sv, cv: ("TS", sv), lambda s: ("TS", s)),
+    ("payload-tss", 100, "ts", lambda sv, cv: ("TSS", sv), lambda s: ("TSS", s)),
+    ("tsd-key", 100, "ts", lambda sv, cv: ("TSD", sv, ("TS", ("sconc", "int"))), lambda s: ("TSD", s, ("TS", "int"))),
+    ("payload-constrained", 50, "ts", lambda sv, cv: ("TS", cv), lambda s: ("TS", s)),
+    ("payload-in-tsl", 100, "ts", lambda sv, cv: ("TSL", ("TS", sv), ("szvar", "N", ())), lambda s: ("TSL", ("TS", s), 2)),
+    ("param", 1, "sc", lambda sv, cv: sv, lambda s: s),
+    ("param-constrained", 1, "sc", lambda sv, cv: cv, lambda s: s),
+]
+
+
+def _leaf_generalisations(rng, c, tag):
+    """patterns with fresh, independent variables that accept concrete c: from the structural copy down to a bare variable"""
+    out = [("var", "U" + tag, ()), ("conc", c)]
+    k = c[0]
+    if k in ("TS", "TSS"):
+        out += [(k, ("svar", "q" + tag, ())), (k, ("sconc", c[1])), (k, ("svar", "q" + tag, tuple(sorted({c[1], "int", "float"}))))]
+    elif k == "TSL":
+        out += [("TSL", ("var", "U" + tag, ()), ("szvar", "L" + tag, ())), ("TSL", ("var", "U" + tag, ()), ("fixed", c[2]))]
+        out += [("TSL", q, ("szvar", "L" + tag, ())) for q in _leaf_generalisations(rng, c[1], tag + "x")[2:4]]
+    elif k == "TSD":
+        out += [("TSD", ("svar", "j" + tag, ()), ("var", "U" + tag, ())), ("TSD", ("sconc", c[1]), ("var", "U" + tag, ()))]
+    return out
+
+
+def gen_depth_case(rng, idx):
+    """candidate A repeats one variable at >= 2 different documented budgets (bare ~T + inside TSL/TSD/TSB, TS payload +
+    scalar parameter, ...); its competitors use independent variables / structure so that their documented rank lies
+    between A's documented rank (per-variable MINIMUM) and the rank A would get from any other way of combining the
+    occurrences; registered in both orders, pairwise and all together"""
+    lines = ["case %d" % idx]
+    mode = rng.choice(["ts", "ts", "scalar", "scalar", "both"])
+    a_params, seed, sites = [], [], []       # sites: per parameter, the alternatives a competitor may use there
+    if mode in ("ts", "both"):
+        leaf = rng.choice([("TS", "int"), ("TS", "str"), ("TSS", "int"), ("TSL", ("TS", "int"), 2), ("TSD", "str", ("TS", "float")),
+                           ("TS", "float")])
+        while True:
+            wraps = [rng.choice(_DEPTH_WRAPS) for _ in range(rng.choice([2, 2, 3] if mode == "ts" else [2]))]
+            if len({w[1] for w in wraps}) >= 2:
+                break
+        v = ("var", "T", ())
+        for i, (name, _budget, mk_p, mk_a) in enumerate(wraps):
+            a_params.append(("ts", mk_p(v, rng)))
+            arg = mk_a(leaf)
+            if rng.random() < 0.15:
+                arg = mk_ref(arg)
+            seed.append(("ts", arg))
+            alts = [("ts", mk_p(g, rng)) for g in _leaf_generalisations(rng, leaf, str(i))]
+            alts.append(("ts", ("var", "W%d" % i, ())))
+            alts.append(("ts", mk_p(v, rng)))            # keeps A's variable at this position only
+            sites.append(alts)
+    if mode in ("scalar", "both"):
+        s = rng.choice(["int", "float", "str", "int"])
+        while True:
+            occ = [rng.choice(_SCALAR_SITES) for _ in range(rng.choice([2, 2, 3] if mode == "scalar" else [2]))]
+            if len({o[1] for o in occ}) >= 2 and any(o[2] == "ts" for o in occ):
+                break
+        if mode == "scalar":
+            occ.sort(key=lambda o: o[2] != "ts")          # a time-series parameter first
+        if any(o[0] == "tsd-key" for o in occ):
+            s = rng.choice(["int", "str"])                # the key types the concrete generator uses
+        sv = ("svar", "s", ())
+        cv = ("svar", "s", tuple(sorted({s, "int", "float"})))
+        for i, (name, _budget, kind, mk_p, mk_a) in enumerate(occ):
+            a_params.append((kind, mk_p(sv, cv)))
+            seed.append((kind, mk_a(s)))
+            j = len(a_params)
+            fresh = ("svar", "r%d" % j, ())
+            freshc = ("svar", "r%d" % j, tuple(sorted({s, "int", "float"})))
+            alts = [(kind, mk_p(fresh, freshc)), (kind, mk_p(freshc, freshc)), (kind, mk_p(("sconc", s), ("sconc", s))),
+                    (kind, mk_p(sv, cv)), (kind, mk_p(cv, cv))]
+            if kind == "sc" and s in NUMERIC:
+                alts.append(("sc", ("sconc", rng.choice(["int", "float"]))))     # possibly through a coercion
+            if kind == "ts":
+                alts.append(("ts", ("var", "W%d" % j, ())))
+            sites.append(alts)
+    a_params, seed, sites = a_params[:3], seed[:3], sites[:3]
+    if not repeated_at_different_depths(a_params):        # truncated away: fall back to the first critical pair
+        a_params = [("ts", ("var", "T", ())), ("ts", ("TSL", ("var", "T", ()), ("szvar", "N", ())))]
+        seed = [("ts", ("TS", "int")), ("ts", ("TSL", ("TS", "int"), 2))]
+        sites = [[("ts", ("TS", ("svar", "q", ()))), ("ts", ("var", "U", ()))],
+                 [("ts", ("TSL", ("var", "U", ()), ("szvar", "N", ()))), ("ts", ("TSL", ("TS", ("svar", "q", ())), ("fixed", 2)))]]
+    lo, hi = doc_rank(a_params, min), doc_rank(a_params, max)
+    ovs = [(a_params, gen_out(rng, a_params), None)]
+    between = []
+    for attempt in range(60):
+        if len(ovs) >= rng.choice([3, 4, 5]) and between:
+            break
+        ps = [rng.choice(alts) for alts in sites]
+        if ps == a_params or any(ps == o[0] for o in ovs) or not candidate_matches((ps, None, None), seed)[0]:
+            continue
+        r = doc_rank(ps)
+        gap = lo < r <= hi
+        if not gap and (len(ovs) >= 4 or (not between and attempt < 40 and rng.random() < 0.7)):
+            continue
+        ovs.append((ps, gen_out(rng, ps), gen_kw(rng) if rng.random() < 0.1 else None))
+        if gap:
+            between.append(len(ovs) - 1)
+    ovs = ovs[:6]
+    order = list(range(len(ovs)))
+    rng.shuffle(order)                                     # A is not always the first label
+    ovs = [ovs[i] for i in order]
+    labels = ["A", "B", "C", "D", "E", "F"][:len(ovs)]
+    a_label = labels[order.index(0)]
+    for l, ov in zip(labels, ovs):
+        lines.append(show_ov(l, ov))
+    perms = [list(labels), list(reversed(labels))]
+    for bi in between[:2]:
+        if bi in order:
+            b_label = labels[order.index(bi)]
+            perms += [[a_label, b_label], [b_label, a_label]]
+    while len(perms) < 4 and len(labels) > 2:
+        p = list(labels)
+        rng.shuffle(p)
+        perms.append(p)
+    for p in perms[:6]:
+        lines.append("perm " + " ".join(p))
+    calls = [seed]
+    c = list(seed)                                         # the repeated variable cannot bind consistently: A drops out
+    i = rng.randrange(len(c))
+    c[i] = mutate_arg(rng, c[i])
+    calls.append(c)
+    calls.append([(k, mk_ref(a)) if k == "ts" and rng.random() < 0.5 else (k, a) for k, a in seed])
+    for c in calls:
+        lines.append(show_call(c))
+    return Case(lines)
+
+
 def streams(rng, tier, seed):
     n = 900 if tier == "quick" else 12000
     cases = [gen_case(rng, i, tier) for i in range(n)]
+    cases += [gen_depth_case(rng, 30000 + i) for i in range(150 if tier == "quick" else 3000)]
     if tier != "quick":
         cases += exhaustive_cases(n)
     cdir = os.path.join(os.path.dirname(BUILD), "corpus", "C19")
@@ -1034,6 +1327,8 @@ def _ov_features(ov, feats):
         _pat_features(p, feats, 0)
     if any(n > 1 for n in seen.values()):
         feats.add("pattern:variable-repeated-across-positions")
+    if repeated_at_different_depths(params):
+        feats.add("pattern:variable-repeated-at-different-depths")
     if kw is not None:
         feats.add("overload:kwargs-collector")
     if out is None:
@@ -1091,6 +1386,11 @@ def _check_call(ln, args, o, family, order, perms, bad, feats, spec):
                        % (ln, l, "matches" if ok else "does not match", "rejects" if ok else "accepts"))
     surv = {l: r for l, r in solo.items() if r is not None}
     feats.add("survivors:%s" % (len(surv) if len(surv) < 3 else "3+"))
+    # the documented rank of every matching candidate (None: the documentation does not decide this call)
+    doc_iv = None
+    if all(candidate_matches(family[l], args)[0] == (solo[l] is not None) for l in order) \
+            and not any(doc_name_clash(family[l][0]) for l in surv):
+        doc_iv = {l: doc_call_rank(family[l], args) for l in surv}
     # (2) what the outcome must be, from the candidates' own reported ranks
     if not surv:
         want = ("err", "no-match")
@@ -1139,6 +1439,8 @@ def _check_call(ln, args, o, family, order, perms, bad, feats, spec):
                            % (show_params(family[got[1]][0]), show_params(family[l][0]), ln[5:]))
                     if msg not in spec:
                         spec.append(msg)
+        if doc_iv is not None and len(msurv) >= 2:
+            _check_docrank(ln, got, {l: doc_iv[l] for l in msurv}, family, bad, feats)
         if got != pw:
             if pw == ("err", "ambiguous"):
                 bad.append("%s: best rank %d is shared by %s, expected an ambiguity error, got %s" % (ln, mn, tied, got[1]))
@@ -1211,6 +1513,58 @@ def _check_call(ln, args, o, family, order, perms, bad, feats, spec):
                 bad.append("%s: output %s is not the substitution of the bindings into %s (= %s)"
                            % (ln, m.group("out"), show_tp(outp), "unresolved" if d is None else show_ct(d)))
     return len(surv) >= 2
+
+
+def _check_docrank(ln, got, iv, family, bad, feats):
+    """[C19-docrank]: the outcome of one resolution against the DOCUMENTED rank of the matching candidates.
+    iv: label -> (lo, hi) bracket of the documented rank (lo == hi unless an undocumented adjustment applies).
+    Only what holds for every value inside the brackets is demanded."""
+    def desc(l):
+        lo, hi = iv[l]
+        txt = doc_rank_text(family[l][0])
+        if lo != hi or lo != doc_rank(family[l][0]):
+            txt += "; in this call %s..%s" % (lo, hi)
+        return "%s (%s, documented rank %s)" % (l, show_params(family[l][0]), txt)
+
+    def instance_note(a, b):
+        if strictly_more_specific(family[a], family[b]):
+            return "; %s is moreover a strict substitution instance of %s" % (a, b)
+        return ""
+    labels = sorted(iv)
+    # the candidate the documentation makes the unique most specific one, if the brackets decide it
+    best = [c for c in labels if all(iv[c][1] < iv[d][0] for d in labels if d != c)]
+    low = min(lo for lo, _ in iv.values())
+    tied = [c for c in labels if iv[c] == (low, low)]
+    if best:
+        feats.add("docrank:decides-winner")
+        for d in labels:
+            if d != best[0] and strictly_more_specific(family[d], family[best[0]]):
+                feats.add("docrank:disagrees-with-instantiation")      # the C19-a zone, reported by [C19-spec] only
+            if d != best[0] and strictly_more_specific(family[best[0]], family[d]):
+                feats.add("docrank:agrees-with-instantiation")
+    elif len(tied) >= 2:
+        feats.add("docrank:decides-tie")
+    else:
+        feats.add("docrank:undetermined")
+    msg = None
+    if got[0] == "win" and got[1] in iv:
+        w = got[1]
+        better = [d for d in labels if d != w and iv[d][1] <= iv[w][0]]
+        if better:
+            d = min(better, key=lambda x: iv[x])
+            if iv[d][1] < iv[w][0]:
+                msg = ("[C19-docrank] %s: selected %s although %s also matches and is documented as more specific%s"
+                       % (ln, desc(w), desc(d), instance_note(d, w)))
+            else:
+                msg = ("[C19-docrank] %s: selected %s although %s also matches at the same documented rank: "
+                       "expected an ambiguity error" % (ln, desc(w), desc(d)))
+    elif got == ("err", "ambiguous") and best:
+        c = best[0]
+        others = ", ".join(desc(d) for d in labels if d != c)
+        msg = ("[C19-docrank] %s: ambiguity error although %s has the strictly smallest documented rank among the "
+               "matching candidates (%s)" % (ln, desc(c), others))
+    if msg is not None and msg not in bad:
+        bad.append(msg)
 
 
 def monitor(stream, case, out):
